@@ -51,7 +51,7 @@ def scenarios(draw):
         h = {'kind': kind, 'id': f'{kind[0]}{i}', 'script': draw(cl.outcome_scripts(delays, max_len=2, kinds=('ok', 'temp', 'err'))),
              'backoff': 0.5, 'duration': draw(st.sampled_from([0, 0, 0.3, 2.0])), 'patch': acts}
         if draw(st.booleans()):
-            h['result'] = draw(st.sampled_from([{'r': 1}, 'done', 7]))
+            h['result'] = draw(st.sampled_from([{'r': 1}, 'done', 7, 0, False, '']))
         handlers.append(h)
     if draw(st.booleans()):
         handlers.append({'kind': 'timer', 'id': 't9', 'interval': draw(st.sampled_from([2.0, 5.0])), 'script': [], 'duration': draw(st.sampled_from([0, 0.5])),
